@@ -610,6 +610,9 @@ func (self *_Assembler) _asm_OP_skip_empty(p *_Instr) {
 	self.Sjmp("JS", _LB_parsing_error_v) // JS      _parse_error_v
 	self.Emit("BTQ", jit.Imm(_F_disable_unknown), _ARG_fv)
 	self.Xjmp("JNC", p.vi())
+	/* only an object can carry an unknown field, a value of another type is a mismatch */
+	self.Emit("CMPB", jit.Sib(_IP, _AX, 1, 0), jit.Imm('{'))
+	self.Xjmp("JNE", p.vi())
 	self.Emit("MOVQ", _IC, _BX)
 	self.Emit("SUBQ", _AX, _BX)
 	self.Emit("MOVQ", _BX, _ARG_sv_n)
